@@ -1,6 +1,7 @@
 //! mc <Cxx> [--tier quick|thorough] [--replay <file>]
 mod alloc;
 mod choppy;
+mod crossthread;
 mod e2;
 mod gen;
 mod props;
